@@ -24,10 +24,30 @@ CHECKS = {
             "Reference-model monitor of the real lexer: an independent reference lexer written from grammar.ebnf plus by-construction expectations; all ordered pairs of 107 lexeme classes x 8 separators x suffix contexts (exhaustive), operator triples, escape/number/keyword families, unicode, unterminated constructs, random soups and the shipped corpus (LF/CRLF/tab forms); exact token kind/value/span equality, rune coverage and span consistency are checked on ~0.8M (quick) / ~4.6M (thorough) token streams.",
             "Trusts the reference lexer harness/lexref as the reading of grammar.ebnf; points the grammar leaves open are accepted both ways and listed in the evidence as unspecified.",
             "runtime monitoring: real lexer vs independent reference lexer + constructive expectations", "lexref", "DESIGN.md §3 C06"),
+    "C02": ("exploration",
+            "Crash/wedge/type-confusion monitor: (1) operator matrix — every binary operator, compound assignment, prefix operator, cast and index form x operand type pair the real analyzer admits (admissibility discovered by asking the analyzer) x boundary value pairs, each as a try-guarded one-expression program run on the VM in crash-isolated workers and on the interpreter; the dynamic kind of the probed result is compared with the static type; (2) the C01 program stream under hostile CoreLimits triples and interpreter call limits. A Go panic, fatal error, step-budget overrun (hook-decided) or non-interrupt outcome refutes the property.",
+            "The matrix follows the analyzer's admissibility; memory bombs through data growth are capped by the worker's address-space limit and not explored.",
+            "runtime monitoring: exhaustive operator/type/value matrix + limits sweep in crash-isolated workers", "prog-gen+model", "DESIGN.md §3 C02"),
+    "C10": ("exploration",
+            "Exact-point cancellation monitor: a counting context cancels at the k-th poll; for every listed program (loops, recursion, try/catch, blocking builtin, 1-4 spawned cores, failing core) and every k up to the program's poll count, on the VM (under the race detector) and the interpreter, the monitor checks that the wait returns a termination interrupt or the program's own outcome, that no core executes more than B=10000 steps after the cancelling poll (step hook), and that no goroutine remains in Core.Run afterwards (stack sampling); a wait that never returns is decided by goroutine-state samples.",
+            "B is two orders above the current polling quantum so that retuning it is not an alarm; host builtins that ignore the context are out of scope.",
+            "runtime monitoring: exhaustive cancellation points via counting context + step/goroutine monitors + race detector", "cancel-points", "DESIGN.md §3 C10"),
+    "C07": ("exploration",
+            "Parse-tree monitor: all ordered pairs and triples of the 32 binary-like operators, prefix x binary x postfix combinations, random trees to depth 7 in 21 statement contexts, printed with the minimum parentheses the operator table of the property requires, plus layout variants (whitespace, comments, redundant parentheses, trailing commas in every list-like construct); the real parser's tree (GroupedExpression stripped, spans ignored) must equal the intended tree, all layout variants must agree, and for int/bool trees the value computed on the VM must equal an independent evaluation.",
+            "The intended tree comes from the property's operator table (harness/exprgen), not from the implementation's precedence function.",
+            "runtime monitoring: exhaustive operator pair/triple enumeration vs reference precedence parser + value cross-check", "exprgen", "DESIGN.md §3 C07"),
     "C11": ("exploration",
             "Exhaustive enumeration (depth <= 3 quick / 4 thorough) of nesting contexts {loop, while, for, block, if, match arm/default, try, catch, call, operand, argument, let-init} around each exit kind {break, continue, return, return value, throw, fatal}, inside a scaffold with a live local, trace tags at every level and a second try and loop afterwards; each program runs on the VM (trace, outcome, residue and handler count at core exit via hooks) and on the interpreter and is compared with the reference evaluator.",
             "Depth bound as stated; the reference evaluator defines the expected trace.",
             "runtime monitoring: exhaustive nesting enumeration vs reference evaluator + residue/handler hooks", "prog-gen+model", "DESIGN.md §3 C11"),
+    "C12": ("exploration",
+            "Reference-predicate monitor over a bounded universe of types (depth <= 2, sampled depth 3) and values incl. every near miss: DeepCast of both value libraries, `as` / annotated-let programs on both backends, and SpawnSync arguments/return values are classified {admit-unchanged, admit-converted, reject-with-path} and compared with independent hasType/conformsAfterConversion/structEq predicates; refusal at the host boundary means no callee instruction executes (step hook).",
+            "Trusts the reference predicates in harness/valuni (written from the property text, independent of cast.go).",
+            "runtime monitoring: value/type universe vs independent conformance predicates", "valuni", "DESIGN.md §3 C12"),
+    "C13": ("exploration",
+            "Algebraic-law monitor on both value libraries and via generated programs: reflexivity/symmetry/transitivity of equality and agreement with structural equality, clone equality and independence under mutation histories checked against a shadow model, JSON round trips under the value's type, and identical Display text of the same abstract value built in both libraries.",
+            "Trusts harness/valuni structEq and the shadow mutation model; the interpreter library has no Clone so copy laws are checked on the VM library.",
+            "runtime monitoring: algebraic laws + shadow-model mutation histories over a value universe", "valuni", "DESIGN.md §3 C13"),
     "C18": ("exploration",
             "Exhaustive cross product of type instances x every member the real analyzer lists (table read from ast.<Type>.Fields() at run time) x boundary argument tuples: key-set inclusion through the Go API in both value libraries, generated one-line programs run on both backends in crash-isolated workers, results checked for survival, advertised type and against a small reference model of the index-taking members and indexing.",
             "The member table follows the analyzer at run time; the reference model of member results is harness code (props/c18/model.go).",
